@@ -129,3 +129,58 @@ Print Assumptions C17_layout_codes_spec.
 
 (* Part C (orchestration: layout_nested_total, layout_finite over the LayoutNested model of coq/C18) is appended
    below this line by V.C17.Total. *)
+
+(* ---------------------------------------------------------------------------------------------------------- *)
+(* Part C -- the orchestration d2layouts.LayoutNested on the model V.C18.Nested (shared with C18). *)
+Require V.C18.Nested V.C18.Spec V.C18.Check V.C18.StubOk V.C17.Total V.C17.Finite.
+
+(* layout_nested_total: for EVERY graph of any size and nesting depth satisfying the checked hypotheses (unique
+   object identities, distinct AbsIDs, near-constant keys only on children of the root), every engine that keeps the
+   objects / tree / real edges (H_core_structure: H_core_ids is part of it) and does not itself return an error, and
+   every router that does not return an error: LayoutNested returns Ok -- no Crash (ChildrenArray[0] of an empty
+   array, nil NearKey), none of the "could not find object ... after layout|routing" errors, and neither the
+   recursion fuel 3*|objects|+3 nor the queue fuel is exhausted. *)
+Theorem C17_layout_nested_total :
+  forall engine router,
+    V.C18.Spec.H_core_structure engine -> V.C17.Total.H_core_total engine -> V.C17.Total.H_router_total router ->
+    forall inf g, V.C18.Spec.wf g -> V.C18.Spec.absids_distinct g -> V.C18.Spec.nears_at_root g ->
+      exists g' tr, V.C18.Nested.layout engine router inf g = V.C18.Nested.Ok (g', tr).
+Proof. exact V.C17.Total.layout_nested_total_lemma. Qed.
+
+(* the fuel statement in the form used by the induction: any fuel >= 3n+3 suffices; 3n+2 when the graph is not laid
+   out as a grid; 3n+1 when, in addition, no object carries a near-constant key at root level 0 *)
+Theorem C17_layout_nested_fuel_sufficient :
+  forall engine router,
+    V.C18.Spec.H_core_structure engine -> V.C17.Total.H_core_total engine -> V.C17.Total.H_router_total router ->
+    forall f inf g, V.C18.Restore.good g -> V.C17.Total.enough f g inf ->
+      exists r, V.C18.Nested.layout_nested engine router f inf g = V.C18.Nested.Ok r.
+Proof. exact V.C17.Total.layout_nested_total_fuel. Qed.
+
+(* layout_finite: the arithmetic the orchestration performs on what the nested layout returned (boundingBox with
+   its +Inf/-Inf seeds, FitToGraph, PositionNested, the shift of a grid-cell container), over extended rationals
+   (finite, +Inf, -Inf, NaN with the IEEE rules for + - min max): finite in, finite out.  Every coordinate the
+   orchestration writes is a sum / difference / min / max of engine outputs and sizes. *)
+Theorem C17_layout_finite :
+  forall rw rh cx cy objs pts,
+    V.C17.Finite.is_fin rw = true -> V.C17.Finite.is_fin rh = true ->
+    V.C17.Finite.is_fin cx = true -> V.C17.Finite.is_fin cy = true ->
+    forallb V.C17.Finite.obj_fin objs = true -> forallb V.C17.Finite.pt_fin pts = true ->
+    V.C17.Finite.is_fin (fst (V.C17.Finite.fit_to_graph rw rh objs)) = true /\
+    V.C17.Finite.is_fin (snd (V.C17.Finite.fit_to_graph rw rh objs)) = true /\
+    forallb V.C17.Finite.obj_fin (fst (V.C17.Finite.position_nested cx cy objs pts)) = true /\
+    forallb V.C17.Finite.pt_fin (snd (V.C17.Finite.position_nested cx cy objs pts)) = true /\
+    forallb V.C17.Finite.obj_fin (fst (V.C17.Finite.cell_shift cx cy objs pts)) = true /\
+    forallb V.C17.Finite.pt_fin (snd (V.C17.Finite.cell_shift cx cy objs pts)) = true.
+Proof. exact V.C17.Finite.layout_finite_lemma. Qed.
+
+(* non-vacuity: the stub engines of V.C18.Check satisfy all three engine hypotheses (the graph hypotheses are shown
+   satisfiable by C18_graph_hypotheses_satisfiable) *)
+Example C17_total_hypotheses_satisfiable :
+  V.C18.Spec.H_core_structure V.C18.Check.stub_engine /\ V.C17.Total.H_core_total V.C18.Check.stub_engine
+  /\ V.C17.Total.H_router_total V.C18.Check.stub_router.
+Proof. exact V.C17.Total.total_hyps_stub. Qed.
+
+Print Assumptions C17_layout_nested_total.
+Print Assumptions C17_layout_nested_fuel_sufficient.
+Print Assumptions C17_layout_finite.
+Print Assumptions C17_total_hypotheses_satisfiable.
